@@ -1389,7 +1389,7 @@ impl<'cmd> Parser<'cmd> {
         debug!("Parser::remove_overrides: id={:?}", arg.id);
         for override_id in &arg.overrides {
             debug!("Parser::remove_overrides:iter:{override_id:?}: removing");
-            matcher.remove(override_id);
+            self.remove_overridden(override_id, matcher);
         }
 
         // Override anything that can override us
@@ -1403,7 +1403,16 @@ impl<'cmd> Parser<'cmd> {
         }
         for overrider_id in transitive {
             debug!("Parser::remove_overrides:iter:{overrider_id:?}: removing");
-            matcher.remove(overrider_id);
+            self.remove_overridden(overrider_id, matcher);
+        }
+    }
+
+    /// An overridden argument is gone for its groups as well
+    fn remove_overridden(&self, id: &Id, matcher: &mut ArgMatcher) {
+        if matcher.remove(id) {
+            for group in self.cmd.groups_for_arg(id) {
+                matcher.remove_group_member(&group, id);
+            }
         }
     }
 
